@@ -12,7 +12,7 @@ RULE = ('version strings with 1-4 dot separated components drawn from {0..12, 99
         'Timeframe min/max on synthetic version lists, and end-to-end audits whose banner version decides which algorithms are recommended; '
         'a case (batch) is non-trivial when it evaluated at least one comparison whose two versions differ in a multi-digit component; '
         'distinct = distinct batch specifications')
-REQUIRED = {'pairs': 10000, 'multi_digit_pairs': 100, 'triples': 1000, 'timeframe_updates': 10, 'cli_runs': 10}
+REQUIRED = {'multi_target_availability_checks': 50, 'pairs': 10000, 'multi_digit_pairs': 100, 'triples': 1000, 'timeframe_updates': 10, 'cli_runs': 10}
 ASSUMPTIONS = ['patch suffix rules are the ones the statement names: OpenSSH pN (p1 == none), Dropbear testN before the release, libssh plain',
                'when one version is a strict prefix of the other (7.4 vs 7.4.0) either "equal" or "shorter is older" is accepted']
 MANIFEST = {
@@ -90,6 +90,8 @@ def cases(tier, seed):
     n_cli = 60 if tier == 'quick' else 600
     for i in range(n_cli):
         cs.append({'kind': 'cli', 'seed': rng.randrange(1 << 30), 'i': i})
+    for i in range(6 if tier == 'quick' else 60):
+        cs.append({'kind': 'cli-multi', 'seed': rng.randrange(1 << 30), 'threads': [1, 2][i % 2]})
     return cs
 
 
@@ -246,8 +248,60 @@ def run_cli(c):
     return viol, {'cli_runs': 1}, True
 
 
+def run_cli_multi(c):
+    """Several servers of the same product at different versions in one multi-target run: for each of them an algorithm is recommended for addition exactly when *its* version is numerically at least the first-appeared version."""
+    from ssh_audit.ssh2_kexdb import SSH2_KexDB
+    from harness import multi
+    import json as _json
+    rng = random.Random(c['seed'])
+    prod, prefix, fmt = rng.choice([('OpenSSH', '', 'OpenSSH_%s'), ('Dropbear', 'd', 'dropbear_%s')])
+    versions = rng.sample(['5.3', '6.6', '7.4', '8.5', '9.9', '10.0', '12.1'] if prod == 'OpenSSH' else ['0.52', '2012.55', '2016.74', '2020.81', '2022.83', '2013.58'], 3)
+    db = SSH2_KexDB.MASTER_DB
+    adv = {'kex': ['diffie-hellman-group14-sha1'], 'key': ['ssh-dss'], 'enc': ['aes128-ctr'], 'mac': ['hmac-sha2-256']}
+    targets = []
+    for v in versions:
+        targets.append(multi.Target(v, {'banner': 'SSH-2.0-' + fmt % v, 'kex': audit.sym_kex(adv['kex'], adv['key'], adv['enc'], adv['mac']), 'hostkeys': {}, 'hostkey_default': None, 'gex': None}))
+    try:
+        res = multi.run_multi(targets, c['threads'], 'json', timeout=120)
+    finally:
+        for t in targets:
+            t.stop()
+    viol, n = [], 0
+    for t in targets:
+        docs = (res.get('docs') or {}).get(t.spec) or []
+        if not docs:
+            viol.append(_v('C14/multi-target-entry-missing', 'no JSON entry for a target', err=res.get('json_error')))
+            continue
+        added = {(cat, e['name']) for lvl, acts in (docs[0].get('recommendations') or {}).items() for cat, lst in (acts.get('add') or {}).items() for e in lst}
+        for cat in ('kex', 'key', 'enc'):
+            for name, e in db[cat].items():
+                if (len(e) > 1 and e[1]) or (len(e) > 2 and e[2]) or name in adv[cat]:
+                    continue
+                if '-cert-' in name or name.startswith('sk-') or name.startswith('ext-info') or name.startswith('kex-strict') or name.startswith('chacha20') or '-cbc' in name:
+                    continue
+                fv = since_versions(e, prefix)
+                if not fv:
+                    continue
+                tv, tw = vt(fv), vt(t.name)
+                m = min(len(tv), len(tw))
+                if tv[:m] == tw[:m] and len(tv) != len(tw):
+                    continue
+                want = tw >= tv
+                n += 1
+                if ((cat, name) in added) != want:
+                    viol.append(_v('C14/availability-wrong:multi-target', 'in a multi-target run an algorithm\'s availability for a target does not follow that target\'s numeric version', product=prod, target_version=t.name, versions_in_run=versions,
+                                   algorithm=name, first_appeared=fv, recommended=(cat, name) in added, expected=want))
+                    break
+    seen, uniq = set(), []
+    for v in viol:
+        if v['key'] not in seen:
+            seen.add(v['key'])
+            uniq.append(v)
+    return uniq, {'cli_runs': 1, 'multi_target_availability_checks': n}, n > 0
+
+
 def run_case(c):
-    fn = {'pairs': run_pairs, 'triples': run_triples, 'timeframe': run_timeframe, 'cli': run_cli}[c['kind']]
+    fn = {'cli-multi': run_cli_multi, 'pairs': run_pairs, 'triples': run_triples, 'timeframe': run_timeframe, 'cli': run_cli}[c['kind']]
     viol, counters, nontrivial = fn(c)
     if viol is None:
         return {'verdict': 'inconclusive', 'why': counters.get('why')}
